@@ -89,6 +89,10 @@ def cases(tier, seed, args):
                             scaling=[None, 'trace', 'eigenvalue'][(i // 2) % 3], layout='CF'[(i // 4) % 2], **base(i)))
         for i in range(n * 2):
             out.append(dict(t='ban', gain=float(10.0 ** rng.integers(-6, 7)), nscale=float(10.0 ** rng.integers(-12, 4)), **base(i)))
+        for i in range(n):
+            # '+ban' through the wrapper, for both eigen-solvers (eigh normalises w^H Phi_nn w = 1, eig returns unit 2-norm)
+            out.append(dict(t='ban_wrapper', name=['gev+ban', 'rank1_pca+gev+ban', 'mvdr_souden+ban', 'rank1_gev+gev+ban'][i % 4],
+                            use_eig=bool((i // 2) % 2), **base(i)))
     if prop == 'C13':
         for i in range(n):
             out.append(dict(t='apply', T=int(rng.integers(1, 12)), lead=int(i % 5), **base(i)))
@@ -303,6 +307,11 @@ def run_case(case):
     if t in ('souden', 'wmwf'):
         phin = pd(rng, F, D, case['cond'])
         a, sigma, phix = _rank1(rng, F, D)
+        if case['seed'] % 3 == 0:
+            # noise PSD stored in a REAL dtype (identity-like, diagonal or real symmetric: diffuse / sensor noise models)
+            # next to a complex target PSD
+            phin = np.ascontiguousarray(phin.real) + np.eye(D) * 1e-3 * np.abs(phin).max()
+            fp += ';real_noise'
         ref = int(rng.integers(D))
         if t == 'souden':
             if case.get('lead'):
@@ -323,6 +332,10 @@ def run_case(case):
         phix = pd(rng, F, D, 10.0)
         a, sigma, r1 = _rank1(rng, F, D)
         phix = r1 + 0.01 * phix
+        # joint scale of both PSDs (the criterion is a ratio): ordinary, very quiet, very loud recordings
+        js = [1.0, 1e-18, 1e12, 1e-24][case['seed'] % 4]
+        phin, phix = phin * js, phix * js
+        fp += f';scale={js:g}'
         if case['which'] == 'souden':
             res, exc = _call(bf.get_mvdr_vector_souden, phix, phin, return_ref_channel=True)
             chosen = -1 if res is None else int(res[1])
@@ -417,6 +430,18 @@ def run_case(case):
         return [dict(kind='rank1', items=its, exc=exc,
                      fp=fp + f';{case["which"]};exact={case["exact"]};scaling={case.get("scaling")};layout={case.get("layout")}',
                      key=f'rank1:{case["seed"]}')]
+    if t == 'ban_wrapper':
+        phin = pd(rng, F, D, min(case['cond'], 1e4))
+        phix = pd(rng, F, D, 1e2)
+        name = case['name']
+        kw = dict(use_eig=case['use_eig']) if name.endswith('gev+ban') else {}
+        if name.startswith('rank1_gev') and case['use_eig']:
+            kw['atf_kwargs'] = dict(use_eig=True)
+        out, exc = _call(bw.get_bf_vector, name, phix, phin, **kw)
+        w, e2 = _call(bw.get_bf_vector, name[:-len('+ban')], phix, phin, **kw)
+        its = [] if (out is None or w is None) else [dict(phin=Z(phin[f]), w=Z(w[f]), out=Z(out[f])) for f in range(min(F, 6))]
+        return [dict(kind='ban', items=its, exc=exc or e2, fp=fp + f';wrapper;name={name};use_eig={case["use_eig"]}',
+                     key=f'banw:{case["seed"]}')]
     if t == 'ban':
         phin = pd(rng, F, D, min(case['cond'], 1e4)) * case['nscale']
         w = cvec(rng, F, D) * case['gain']
@@ -592,6 +617,8 @@ def _name(case, rng):
             kw['ref_channel'] = case['refch']
         if p['main'] == 'wmwf':
             kw['reference_channel'] = case['refch']
+    if p['ok'] and p['main'] == 'gev' and (case['seed'] // 2) % 2:
+        kw['use_eig'] = True             # general (non-Hermitian) eigen-solver: unit-2-norm eigenvectors
     if p['ok'] and p['pre'] == 'rank1_pca' and case.get('refch') == 1:
         kw['atf_kwargs'] = dict(scaling='trace')
     if case['seed'] % 2:
@@ -603,4 +630,4 @@ def _name(case, rng):
     return dict(kind='name', name=case['name'], pipeline=p, exc_direct=e1, exc_composed=e2,
                 d_direct='' if direct is None else enc.digest(np.ascontiguousarray(direct).astype(complex)),
                 d_composed='' if composed is None else enc.digest(np.ascontiguousarray(composed).astype(complex)),
-                exc='', fp=f't=name;name={case["name"]}', key=f'name:{case["name"]}:{case["seed"]}')
+                exc='', fp=f't=name;name={case["name"]};kw={sorted(kw)}', key=f'name:{case["name"]}:{case["seed"]}')
